@@ -401,6 +401,13 @@ func c10GenCase(r *u.Rng) *c10Case {
 	case 1:
 		c.plans = []quic.InitialPacketPlan{{CryptoLength: r.Range(1, 1000), PacketSize: c.maxSize}, {PacketSize: int(r.Pick(0, 1200, int64(c.maxSize)))}}
 	}
+	// keep the flight short enough to print (the last plan entry repeats; long flights have
+	// their own fixed cases): at most about 40 datagrams
+	for _, p := range c.plans {
+		if p.CryptoLength > 0 && len(c.hello) > 40*p.CryptoLength {
+			c.hello = c.hello[:40*p.CryptoLength]
+		}
+	}
 	// builder
 	rnd := func() *quic.QUICRandomFrames {
 		return &quic.QUICRandomFrames{MinPING: uint8(r.Range(0, 2)), MaxPING: uint8(r.Range(2, 5)), MinCRYPTO: uint8(r.Range(1, 3)), MaxCRYPTO: uint8(r.Range(3, 9)),
@@ -524,7 +531,7 @@ func c10RunCase(w *bufio.Writer, rep *c10Reporter, c *c10Case, dist map[string]i
 		confStore = &c10FixedTokenStore{c.conf}
 	}
 	info, dgs := quic.VerifUPackerFlight(quic.VerifUPackerCfg{Spec: sp, DestConnID: c.dcid, SrcConnID: c.scid, Hello: c.hello,
-		MaxSize: c.maxSize, ConfStore: confStore, Version: c.ver(), MaxCalls: 10, FirstPNOffset: c.pnOffset})
+		MaxSize: c.maxSize, ConfStore: confStore, Version: c.ver(), MaxCalls: c10MaxCalls, FirstPNOffset: c.pnOffset})
 	if info.SetupPanic != "" {
 		rep.fail("upacker/panic", "setting up / packing the flight panicked: "+info.SetupPanic, c.String())
 		return
@@ -562,7 +569,7 @@ func c10RunCase(w *bufio.Writer, rep *c10Reporter, c *c10Case, dist map[string]i
 		}
 	}
 	errored := len(dgs) > 0 && dgs[len(dgs)-1].Err != ""
-	e.Truncated = errored || len(dgs) >= 10
+	e.Truncated = errored || len(dgs) >= c10MaxCalls
 	var fails []c10Fail
 	var pkts []*c10Pkt
 	if len(raw) > 0 || !errored {
@@ -740,6 +747,18 @@ func c10RunCase(w *bufio.Writer, rep *c10Reporter, c *c10Case, dist map[string]i
 	}
 }
 
+// c10MaxCalls: far above any flight (a datagram carries at least one CRYPTO byte and the
+// generated ClientHellos have at most 4000 bytes): the unit never cuts a flight short.
+const c10MaxCalls = 5000
+
+// c10SynthTokenLen: the synthesised token's length (0 with an explicit TokenStore).
+func c10SynthTokenLen(sp *quic.QUICSpec) int {
+	if sp.InitialPacketSpec.TokenStore != nil {
+		return 0
+	}
+	return max(sp.InitialPacketSpec.ClientTokenLength, len(sp.InitialPacketSpec.ClientTokenPrefix))
+}
+
 func c10Thorough() int {
 	if os.Getenv("VERIF_TIER") == "thorough" {
 		return 1
@@ -850,6 +869,17 @@ func c10Targeted(r *u.Rng) []*c10Case {
 		c.desc = fmt.Sprintf(" [targeted: token length %d, prefix of %d bytes]", tp[0], tp[1])
 		out = append(out, c)
 	}
+	// (k) long flights: no bound on the number of Initial datagrams (17 and 120 datagrams)
+	c = base()
+	c.plans = []quic.InitialPacketPlan{{CryptoLength: 100, PacketSize: 1200}}
+	c.desc = " [targeted: 17 datagrams]"
+	out = append(out, c)
+	c = base()
+	c.hello = c10Hello(r, 1200)
+	c.lens, c.single = []int{1, 2, 1}, 0
+	c.plans = []quic.InitialPacketPlan{{CryptoLength: 10}}
+	c.desc = " [targeted: 120 datagrams]"
+	out = append(out, c)
 	// (i) CryptoLength at every varint width of the write offset
 	for _, cl := range []int{1, 63, 64, 1100} {
 		c = base()
@@ -877,7 +907,7 @@ func c10DialCase(w *bufio.Writer, rep *c10Reporter, r *u.Rng, dist map[string]in
 	c10Derive(r, sp, e, maxPacket)
 	ips := &sp.InitialPacketSpec
 	// boundary values of what dial must accept / refuse
-	switch r.Intn(8) {
+	switch r.Intn(10) {
 	case 0:
 		ips.InitPacketNumber = []uint64{1<<62 - 1, 1 << 62, 1<<64 - 1, 70000, 255, 256, 65535, 65536}[r.Intn(8)]
 		ips.InitialPackets = nil
@@ -892,6 +922,14 @@ func c10DialCase(w *bufio.Writer, rep *c10Reporter, r *u.Rng, dist map[string]in
 		ips.SrcConnIDLength = int(r.Pick(0, 20, 21))
 	case 5:
 		ips.InitPacketNumberLengths = []quic.PacketNumberLen{quic.PacketNumberLen(r.Pick(1, 2, 4, 5, 0)), 2}
+	case 6: // a token that leaves (almost) no room
+		ips.TokenStore, e.ExplTokSet, e.ExplToken = nil, false, nil
+		ips.ClientTokenPrefix = nil
+		ips.ClientTokenLength = int(r.Pick(600, 1000, int64(maxPacket)-80, int64(maxPacket)-60, int64(maxPacket)-40, int64(maxPacket), 1300, 2000))
+		ips.InitialPackets = nil
+	case 7: // a CRYPTO split the packet cannot hold
+		ips.InitialPackets = []quic.InitialPacketPlan{{CryptoLength: int(r.Pick(900, 1100, 1150, 1190, int64(maxPacket)-30, 1300)), PacketSize: int(r.Pick(0, 0, 1200))}, {}}
+		ips.FrameBuilder = nil
 	}
 	conf := &quic.Config{InitialPacketSize: uint16(maxPacket)}
 	if r.Chance(1, 4) {
@@ -916,7 +954,7 @@ func c10DialCase(w *bufio.Writer, rep *c10Reporter, r *u.Rng, dist map[string]in
 	rejected := c10Rejected(fl)
 	fmt.Fprintf(w, "CASE 1 %s\n", u.App("ValidateCase",
 		u.Z(int64(ips.DestConnIDLength)), u.Z(int64(ips.SrcConnIDLength)), u.ZU(ips.InitPacketNumber), u.ZList(lens), u.Z(int64(ips.InitPacketNumberLength)),
-		u.Z(int64(sp.UDPDatagramMinSize)), u.List(plans), u.Z(int64(maxPacket)), u.B(rejected)))
+		u.Z(int64(sp.UDPDatagramMinSize)), u.List(plans), u.Z(int64(maxPacket)), u.Z(int64(c10SynthTokenLen(sp))), u.B(rejected)))
 	dist["ValidateCase"]++
 	why := c10SpecInvalid(sp, maxPacket)
 	switch {
@@ -934,6 +972,10 @@ func c10DialCase(w *bufio.Writer, rep *c10Reporter, r *u.Rng, dist map[string]in
 		return
 	case rejected:
 		rep.fail("upacker/dial/spurious-reject", "the dial refused an acceptable spec: "+fl.DialErr, c10SpecString(sp))
+		return
+	}
+	if len(fl.Datagrams) == 0 && strings.Contains(fl.DialErr, "does not fit the packet buffer") {
+		dist["dial-error-buffer"]++ // the builder's output does not fit the packet buffer: an error, as C10_fits_or_error says
 		return
 	}
 	if len(fl.Datagrams) == 0 {
